@@ -246,6 +246,51 @@ func c14Sym(op uint16, l, pos int) (sig, msg string) {
 	return c14Prog([]codec.Ins{in, {Op: codec.HALT}, in})
 }
 
+// c14Forms: the integer argument of vm.NewLine is a byte string; every spelling of a value - minimal,
+// zero-padded, and the empty string for 0 (what big.Int.Bytes() gives) - must come back as that value
+// from the vm's own parser, with the following instruction untouched.
+var c14Forms = [][]byte{{}, {0}, {0, 0}, {5}, {0, 5}, {0, 0, 0, 7}, {1, 0}, {0, 1, 0}, {255, 255, 255, 255}}
+
+func c14Form(op uint16, fi int) (sig, msg string) {
+	defer guardSig(&sig, &msg, "form")
+	f := c14Forms[fi]
+	var want uint32
+	for _, b := range f {
+		want = want<<8 | uint32(b)
+	}
+	tail := codec.Encode([]codec.Ins{{Op: codec.LOAD, Sym: "next", N: 3}, {Op: codec.HALT}})
+	var line []byte
+	switch op {
+	case codec.LOAD:
+		line = vm.NewLine(nil, op, []string{"s"}, f, nil)
+	case codec.CROAK:
+		line = vm.NewLine(nil, op, nil, f, []uint8{1})
+	case codec.CATCH:
+		line = vm.NewLine(nil, op, []string{"s"}, f, []uint8{1})
+	}
+	b := append(append([]byte{}, line...), tail...)
+	gotOp, rest, err := vm.ParseOp(b)
+	if err != nil || uint16(gotOp) != op {
+		return "newline-form-roundtrip", fmt.Sprintf("NewLine(op %d, integer bytes %x) = %x: opcode reads back as %d (%v)", op, f, line, gotOp, err)
+	}
+	var v uint32
+	var sym string
+	mode := true
+	switch op {
+	case codec.LOAD:
+		sym, v, rest, err = vm.ParseLoad(rest)
+	case codec.CROAK:
+		v, mode, rest, err = vm.ParseCroak(rest)
+		sym = "s"
+	case codec.CATCH:
+		sym, v, mode, rest, err = vm.ParseCatch(rest)
+	}
+	if err != nil || v != want || sym != "s" || !mode || !bytes.Equal(rest, tail) {
+		return "newline-form-roundtrip", fmt.Sprintf("NewLine(op %d, integer bytes %x) = %x reads back as (sym %q, value %d, mode %v, %v) with %x left; written: value %d followed by %x", op, f, line, sym, v, mode, err, rest, want, tail)
+	}
+	return "", ""
+}
+
 func c14Replay(w json.RawMessage) (string, string) {
 	var wit c14Witness
 	if err := json.Unmarshal(w, &wit); err != nil {
@@ -258,6 +303,8 @@ func c14Replay(w json.RawMessage) (string, string) {
 		return c14Sym(wit.Op, wit.Len, wit.Pos)
 	case "prog":
 		return c14Prog(wit.Prog)
+	case "form":
+		return c14Form(wit.Op, wit.Len)
 	}
 	return "bad-witness", "kind"
 }
@@ -334,6 +381,18 @@ func c14Run(c *mc.Ctx) {
 				}
 				if sig, msg := c14Sym(op, l, pos); sig != "" {
 					c.Fail(sig, msg, c14Witness{Kind: "sym", Op: op, Len: l, Pos: pos})
+				}
+			}
+		}
+	}
+	// (2b) spellings of the integer argument of vm.NewLine
+	if c.Mine() {
+		for _, op := range []uint16{codec.LOAD, codec.CROAK, codec.CATCH} {
+			for fi := range c14Forms {
+				c.Count("evaluations", 1)
+				c.Count("integer_spellings", 1)
+				if sig, msg := c14Form(op, fi); sig != "" {
+					c.Fail(sig, msg, c14Witness{Kind: "form", Op: op, Len: fi})
 				}
 			}
 		}
